@@ -34,14 +34,17 @@ DropOpt(st) == IF Len(st.stack) > 0 /\ TopOf(st).opt
                THEN [st EXCEPT !.stack = SubSeq(@, 1, Len(@) - 1)] ELSE st
 
 \* "" when Visit(n, ret) is enabled, else the guard that fails
-VisitWhy(tab, st, n) ==
+\* (root: the node the mapper was applied to - node 1 for a call on the whole tree, any node
+\* when a history of calls on one mapper instance applies it to subexpressions)
+VisitWhyR(tab, st, n, root) ==
     LET s == DropOpt(st) IN
     IF n \notin 1..Len(tab) THEN "unknown-node"
     ELSE IF n \in st.seen THEN "visited-twice"
     ELSE IF Len(s.stack) = 0
-         THEN (IF st.seen # {} THEN "visit-after-end" ELSE IF n = 1 THEN "" ELSE "root-not-first")
+         THEN (IF st.seen # {} THEN "visit-after-end" ELSE IF n = root THEN "" ELSE "root-not-first")
     ELSE IF n \in TopOf(s).pend \/ Bug = "visit_anywhere" THEN ""
     ELSE "visit-out-of-place"
+VisitWhy(tab, st, n) == VisitWhyR(tab, st, n, 1)
 VisitDo(tab, st, n, ret) ==
     LET s  == DropOpt(st)
         s1 == IF Len(s.stack) = 0 THEN s.stack
@@ -52,28 +55,35 @@ VisitDo(tab, st, n, ret) ==
 
 \* a memoising mapper legitimately skips an occurrence that is Python-equal (same class in
 \* cls) to one it has already finished
-MemoCovered(cls, st, pend) == \A c \in pend : \E m \in st.done : cls[m] = cls[c]
+\* ... in this call, or (ext: the classes of the occurrences) in an earlier call on the same
+\* mapper instance that was made with the same extra positional and keyword arguments
+MemoCoveredX(cls, st, pend, ext) == \A c \in pend : cls[c] \in ext \/ \E m \in st.done : cls[m] = cls[c]
+MemoCovered(cls, st, pend) == MemoCoveredX(cls, st, pend, {})
 PostView(st, n) == IF Len(st.stack) > 0 /\ TopOf(st).n # n THEN DropOpt(st) ELSE st
-PostWhy(cls, cached, st, n) ==
+PostWhyX(cls, cached, st, n, ext) ==
     LET s == PostView(st, n) IN
     IF n \notin st.seen THEN "post-before-visit"
     ELSE IF ~OnStack(s, n) THEN "post-twice-or-late"
     ELSE IF TopOf(s).n # n THEN "post-while-descendant-open"
     ELSE IF TopOf(s).pend = {} \/ Bug = "post_ignores_pending" THEN ""
-    ELSE IF cached /\ MemoCovered(cls, st, TopOf(s).pend) THEN ""
+    ELSE IF cached /\ MemoCoveredX(cls, st, TopOf(s).pend, ext) THEN ""
     ELSE "post-with-children-pending"
+PostWhy(cls, cached, st, n) == PostWhyX(cls, cached, st, n, {})
 PostDo(st, n) ==
     LET s == PostView(st, n) IN
     [stack |-> SubSeq(s.stack, 1, Len(s.stack) - 1), done |-> st.done \cup {n}, seen |-> st.seen]
 
 \* "" when the finished event list is accepted in state st
-EndWhy(cls, cached, st) ==
+\* (a memoising mapper applied once more to an expression it has finished with the same extra
+\* arguments may answer from its memory: nothing is visited)
+EndWhyX(cls, cached, st, root, ext) ==
     LET s == DropOpt(st) IN
-    IF st.seen = {} THEN "nothing-visited"
+    IF st.seen = {} THEN (IF cached /\ cls[root] \in ext THEN "" ELSE "nothing-visited")
     ELSE IF Len(s.stack) = 0 \/ Bug = "end_anywhere" THEN ""
-    ELSE IF TopOf(s).pend # {} /\ ~(cached /\ MemoCovered(cls, st, TopOf(s).pend))
+    ELSE IF TopOf(s).pend # {} /\ ~(cached /\ MemoCoveredX(cls, st, TopOf(s).pend, ext))
          THEN "returned-with-children-pending"
     ELSE "returned-without-post"
+EndWhy(cls, cached, st) == EndWhyX(cls, cached, st, 1, {})
 
 StepWhy(tab, cls, cached, st, ev) ==
     IF ev.e = "visit" THEN VisitWhy(tab, st, ev.n) ELSE PostWhy(cls, cached, st, ev.n)
@@ -88,6 +98,14 @@ RunWhy(tab, cls, cached, evs) ==
                           IF w # "" THEN w ELSE Go(i + 1, StepDo(tab, st, evs[i]))
     IN Go(1, StInit)
 Accepts(tab, evs) == RunWhy(tab, MkSeq(Len(tab), LAMBDA i : i), FALSE, evs) = ""
+\* the same for one call of a history: applied to node root, ext = classes finished before
+RunWhyX(tab, cls, cached, evs, root, ext) ==
+    LET RECURSIVE Go(_, _)
+        Go(i, st) == IF i > Len(evs) THEN EndWhyX(cls, cached, st, root, ext)
+                     ELSE LET w == IF evs[i].e = "visit" THEN VisitWhyR(tab, st, evs[i].n, root)
+                                   ELSE PostWhyX(cls, cached, st, evs[i].n, ext) IN
+                          IF w # "" THEN w ELSE Go(i + 1, StepDo(tab, st, evs[i]))
+    IN Go(1, StInit)
 
 \* ------------------------------------------------------------------ M-layer: the contract
 RECURSIVE DescOf(_, _)
@@ -144,15 +162,24 @@ Mutations(s) ==
 
 \* ------------------------------------------------------------------ contracts on results
 \* identity traversal: the instrumented leaf handler renames the variables in R
-RECURSIVE Rename(_, _)
-Rename(e, R) ==
+\* (the new name carries the extra arguments the leaf handler received: "_new" followed by
+\* "_<n>" for every positional and "_<key><n>" for every keyword argument)
+ArgSuffix(a, k) ==
+    LET RECURSIVE GoA(_), GoK(_)
+        GoA(i) == IF i > Len(a) THEN "" ELSE "_" \o ToString(a[i]) \o GoA(i + 1)
+        GoK(i) == IF i > Len(k) THEN "" ELSE "_" \o k[i].k \o ToString(k[i].v) \o GoK(i + 1)
+    IN "_new" \o GoA(1) \o GoK(1)
+RECURSIVE RenameS(_, _, _)
+RenameS(e, R, sfx) ==
     IF ~IsNode(e) THEN e
-    ELSE LET me == SWithKids(e, [i \in 1..Len(SKids(e)) |-> Rename(SKids(e)[i], R)]) IN
-         IF e.t \in {"Var", "UVar"} /\ e.name \in R THEN [me EXCEPT !.name = @ \o "_new"] ELSE me
+    ELSE LET me == SWithKids(e, [i \in 1..Len(SKids(e)) |-> RenameS(SKids(e)[i], R, sfx)]) IN
+         IF e.t \in {"Var", "UVar"} /\ e.name \in R THEN [me EXCEPT !.name = @ \o sfx] ELSE me
+Rename(e, R) == RenameS(e, R, "_new")
 ChangedBelow(e, R) == Contains(e, LAMBDA x : x.t \in {"Var", "UVar"} /\ x.name \in R)
 MutableBelow(e)    == Contains(e, IsMutable)
 \* "an equal tree": equal as Python compares (constants by value)
-IdentityTreeOK(tree, R, got) == Norm(ZeroIds(Rename(tree, R))) = Norm(got)
+IdentityTreeOKS(tree, R, sfx, got) == Norm(ZeroIds(RenameS(tree, R, sfx))) = Norm(got)
+IdentityTreeOK(tree, R, got) == IdentityTreeOKS(tree, R, "_new", got)
 \* verdict on the `same object` flag of node nd: "" fine, else the clause
 SameWhy(nd, R, same, undecidable) ==
     IF ChangedBelow(nd, R) THEN (IF same THEN "same-object-but-changed-below" ELSE "")
